@@ -82,8 +82,11 @@ def params_of(config):
     if config.get("name"):
         from amaranth.lib.crc import catalog
         a = getattr(catalog, config["name"])
-        return {"crc_width": a.crc_width, "polynomial": a.polynomial, "initial_crc": a.initial_crc,
-                "reflect_input": a.reflect_input, "reflect_output": a.reflect_output, "xor_output": a.xor_output}
+        p = {"crc_width": a.crc_width, "polynomial": a.polynomial, "initial_crc": a.initial_crc,
+             "reflect_input": a.reflect_input, "reflect_output": a.reflect_output, "xor_output": a.xor_output}
+        # (a relative of the catalogue entry: same polynomial and reflections, other initial value / output mask)
+        p.update(config.get("mutate") or {})
+        return p
     return config["params"]
 
 
@@ -105,6 +108,11 @@ def gen_case_i(seed, tier, index):
         config["name"] = NAMES[(index - index // 5) % len(NAMES)]
         p = None
     config["edge"] = cfg.choice(["pos", "pos", "neg"])
+    if config["name"] and fl.random() < 0.3:
+        n0 = params_of(config)["crc_width"]
+        config["mutate"] = {"initial_crc": fl.randrange(1 << n0)}
+        if fl.random() < 0.5:
+            config["mutate"]["xor_output"] = fl.randrange(1 << n0)
     # p is needed for data widths and trailers; for catalogue entries resolve through amaranth's catalog module lazily
     if p is None:
         p = params_of(config)
@@ -113,6 +121,8 @@ def gen_case_i(seed, tier, index):
     if cfg.random() < 0.35:
         divs = [d for d in range(1, n + 1) if n % d == 0]
         dw = cfg.choice(divs)
+    if config.get("mutate") and cfg.random() < 0.5:
+        dw = 8          # (bytes / bytearray input to compute() exists for 8-bit words only)
     while dw * n > 1024 and dw > 1:      # keeps elaboration of the XOR network within a few hundred ms
         dw = dw // 2 if n % (dw // 2 or 1) == 0 or dw > n else max(1, dw - 1)
     config["data_width"] = dw
@@ -143,6 +153,7 @@ def gen_case_i(seed, tier, index):
             steps.append({"k": "clk", "l": 1 - active})
 
     p_idle = fl.choice([0.0, 0.1, 0.4])
+    p_hwrst = fl.choice([0, 0, 0.3, 0.6])
     for _ in range(nmsgs):
         length = wl.choice([0, 1, 2, 3, wl.randint(1, 16), wl.randint(1, 64 if tier == "thorough" else 24)])
         words = [wl.randrange(1 << dw) for _ in range(length)]
@@ -174,6 +185,14 @@ def gen_case_i(seed, tier, index):
             cycle(st, 1, w & dmask)
             first = False
         cycle(0, 0, cur["data"])
+        if p_hwrst and fl.random() < p_hwrst:
+            # the domain's reset, held over one or two active edges (also in the middle of what follows, without `start`): the
+            # register returns to the initial value
+            steps.append({"k": "rst", "l": 1})
+            for _ in range(fl.randint(1, 2)):
+                steps.append({"k": "clk", "l": active})
+                steps.append({"k": "clk", "l": 1 - active})
+            steps.append({"k": "rst", "l": 0})
     return {"config": config, "sched": {"mode": sc.choice(["seeded", "seeded", "reverse", "insertion"]),
                                         "seed": sc.randrange(1 << 32)}, "steps": steps, "reuse": fl.random() < 0.15,
             "sibling": fl.choice([0, 0, 1, 2])}
@@ -203,7 +222,7 @@ def run_case(case):
 
     def checks():
         # software clause
-        if config.get("name"):
+        if config.get("name") and not config.get("mutate"):
             got = algo(8).compute(b"123456789")
             exp = CHECKS[config["name"]][0]
             if got != exp:
@@ -239,6 +258,7 @@ def run_case(case):
         clk = 0
         sets_since = 0
         idle = 0
+        rst_lv = [0]
 
         def compare(step):
             crc = drv.get(dut.crc)
@@ -274,6 +294,10 @@ def run_case(case):
                 sets_since += 1
                 if sets_since == 2:
                     F["glitch-in"] += 1
+            elif st["k"] == "rst":
+                rst_lv[0] = st["l"]
+                drv.drive({"sync.rst": st["l"]})
+                F["reset"] = F.get("reset", 0) + 1
             else:
                 lvl = st["l"]
                 is_active = (lvl != clk and lvl == active)
@@ -283,7 +307,12 @@ def run_case(case):
                         F["inactive"] += 1
                 clk = lvl
                 drv.drive({"sync.clk": lvl})
-                if is_active:
+                if is_active and rst_lv[0]:
+                    sets_since = 0
+                    words = []
+                    regs = [williams_reg(p, [], dw)]
+                    P["reset_at_edge"] = P.get("reset_at_edge", 0) + 1
+                elif is_active:
                     sets_since = 0
                     if inp["start"]:
                         if inp["valid"]:
@@ -304,7 +333,7 @@ def run_case(case):
                     else:
                         idle += 1
             new = compare(i)
-            if is_active and inp["valid"]:
+            if is_active and inp["valid"] and not rst_lv[0]:
                 if new[2] is True:
                     P["own_trailer_match"] += 1
                 elif new[2] is False:
@@ -315,6 +344,9 @@ def run_case(case):
                     if P["software_compares"] % 3 == 2:
                         sw = params.compute(iter(list(words)))
                         P["compute_from_iterator"] = P.get("compute_from_iterator", 0) + 1
+                    elif dw == 8 and P["software_compares"] % 3 == 1:
+                        sw = params.compute(bytes(words) if P["software_compares"] % 2 else bytearray(words))
+                        P["compute_from_bytes"] = P.get("compute_from_bytes", 0) + 1
                     else:
                         sw = params.compute(words)
                     P["software_compares"] += 1
